@@ -35,6 +35,9 @@ pub enum Kind {
     /// server roles: the PUBREL of the nearest earlier `PubRel` once more, arriving while the protocol handler of the first is
     /// still running (that handler is kept deferred until the repeat has been read); both are requests, both get a PUBCOMP
     PubRelAgain,
+    /// v5 server whose peer announced a Maximum Packet Size of 48: SUBSCRIBE with 64 filters, whose SUBACK cannot be made to
+    /// fit.  The connection may end over it (it does, with an encode error); what it may not do is go on without the SUBACK
+    SubBig,
 }
 
 /// `PubRelOf` resolved: the kinds actually sent (a `PubRelOf` without a free earlier QoS 1 publish becomes a QoS 1 publish)
@@ -114,10 +117,23 @@ pub async fn run_case(c: Case) -> Result<CaseInfo, Failure> {
     }
     cfg.v3.router = c.router;
     cfg.v5.router = c.router;
+    let big = c.kinds.contains(&Kind::SubBig);
+    if big {
+        cfg.v5.connect.max_packet_size = Some(48);
+    }
     let eut = Eut::start(c.role, &cfg).await;
     eut.handshake(&cfg).await;
     let n_relof = { let (eff, t) = resolve(&c.kinds); if t.iter().any(Option::is_some) { eff.iter().filter(|k| matches!(k, Kind::PubRel | Kind::PubRelOf | Kind::PubRelAgain)).count() } else { 0 } };
     let res = run_case_on(c, &eut).await;
+    if res.is_err() && big {
+        // the response that cannot be made to fit ends the connection: from the failed encode on it is no longer healthy and
+        // nothing is owed (responses behind it may or may not still be written before the teardown is through)
+        eut.app().open_all();
+        eut.settle().await;
+        if !eut.app().stops().is_empty() || eut.done().is_some() {
+            return Ok(CaseInfo::trivial().label("oversize-response-ended-the-connection"));
+        }
+    }
     if res.is_err() && n_relof > 0 {
         // a PUBREL for the id of a running QoS 1 publish (clients) or a PUBREL repeated while the first is being handled (servers)
         // comes from a peer that is itself at the edge of the protocol; the case is judged only if the library took every PUBREL
@@ -186,6 +202,7 @@ async fn run_case_on(c: Case, eut: &Eut) -> Result<CaseInfo, Failure> {
                 let id = target[i].map_or(0, |t| t as u16 + 1);
                 (P5::PubRel(s5::Ack5 { pid: id, ..Default::default() }), (7, id), (G_CTL, nc))
             }
+            Kind::SubBig => (P5::Subscribe(s5::Sub5 { pid, filters: (0..64).map(|k| (format!("a/{k}"), s5::SubOpts { qos: 1, ..Default::default() })).collect(), ..Default::default() }), (9, pid), (G_CTL, nc)),
             Kind::PubRelAgain => {
                 let id = target[i].map_or(0, |t| rel_id[t]);
                 (P5::PubRel(s5::Ack5 { pid: id, ..Default::default() }), (7, id), (G_CTL, nc))
@@ -394,7 +411,7 @@ pub fn check_case(c: &Case) -> Result<CaseInfo, Failure> {
 pub fn kinds_for(role: Role) -> Vec<Kind> {
     match role {
         Role::V3Server => vec![Kind::Pub1, Kind::Pub2, Kind::PubRel, Kind::Sub, Kind::Unsub, Kind::Ping, Kind::Pub0, Kind::PubRelAgain],
-        Role::V5Server => vec![Kind::Pub1, Kind::Pub2, Kind::Pub1Neg, Kind::Pub1ErrAck, Kind::PubRel, Kind::Sub, Kind::Unsub, Kind::Ping, Kind::Auth, Kind::Pub0, Kind::PubRelAgain],
+        Role::V5Server => vec![Kind::Pub1, Kind::Pub2, Kind::Pub1Neg, Kind::Pub1ErrAck, Kind::PubRel, Kind::Sub, Kind::Unsub, Kind::Ping, Kind::Auth, Kind::Pub0, Kind::PubRelAgain, Kind::SubBig],
         Role::V5Client => vec![Kind::Pub1, Kind::Pub1Neg, Kind::Pub0, Kind::PubRelOf],
         _ => vec![Kind::Pub1, Kind::Pub0, Kind::PubRelOf],
     }
@@ -469,11 +486,12 @@ fn exhaustive(ctx: &Ctx) -> Stats {
         (Role::V5Client, vec![Kind::Pub1, Kind::Pub1, Kind::PubRelOf, Kind::PubRelOf, Kind::Pub1][..n].to_vec()),
         (Role::V5Server, vec![Kind::PubRel, Kind::PubRelAgain, Kind::Ping, Kind::Pub1, Kind::Sub][..n].to_vec()),
         (Role::V3Server, vec![Kind::Pub1, Kind::PubRel, Kind::PubRelAgain, Kind::Ping, Kind::Pub1][..n].to_vec()),
+        (Role::V5Server, vec![Kind::Pub1, Kind::SubBig, Kind::Ping, Kind::Pub1, Kind::Sub][..n].to_vec()),
     ];
     let mut work: Vec<Case> = Vec::new();
     for (pi, (role, kinds)) in patterns.iter().enumerate() {
         // the last two patterns (client PUBREL) also through the client's resource() routes, pattern 0 through the server's router
-        let routed = pi == 0 || (pi + 4 >= patterns.len() && pi + 2 < patterns.len());
+        let routed = pi == 0 || (pi + 5 >= patterns.len() && pi + 3 < patterns.len());
         for mask in 0u32..(1 << n) {
             let deferred: Vec<u8> = (0..n as u8).filter(|i| mask >> i & 1 == 1).collect();
             for perm in permutations(&deferred) {
@@ -516,8 +534,8 @@ pub fn run(ctx: &Ctx, started: Instant) -> i32 {
     stats.merge(rnd);
     let report = Report {
         level: "exploration",
-        rule: "exhaustive: for 16 request-kind patterns of length 4 (quick) / 5 (thorough) every immediate/deferred mask x every completion permutation x {one write, one write per request} (three patterns also with the publishes going through the topic router / the client's resource() routes); \
-               random: 2..7 requests from {PUBLISH QoS1, PUBLISH QoS2, PUBREL of an earlier completed first leg, SUBSCRIBE, UNSUBSCRIBE, PINGREQ, v5 AUTH, PUBLISH QoS 0 (no response), a PUBREL repeated while the first is being handled; client roles: PUBLISH QoS 0/1 and PUBREL carrying the id of a QoS 1 publish whose handler is still running} with generated write groupings, \
+        rule: "exhaustive: for 17 request-kind patterns of length 4 (quick) / 5 (thorough) every immediate/deferred mask x every completion permutation x {one write, one write per request} (three patterns also with the publishes going through the topic router / the client's resource() routes); \
+               random: 2..7 requests from {PUBLISH QoS1, PUBLISH QoS2, PUBREL of an earlier completed first leg, SUBSCRIBE, UNSUBSCRIBE, PINGREQ, v5 AUTH, PUBLISH QoS 0 (no response), a PUBREL repeated while the first is being handled, v5 server: a SUBSCRIBE whose SUBACK cannot fit the peer's Maximum Packet Size (the connection may end, it may not go on without the SUBACK); client roles: PUBLISH QoS 0/1 and PUBREL carrying the id of a QoS 1 publish whose handler is still running} with generated write groupings, \
                gate openings interleaved with arrivals, optional stalled-peer episode with an 8-byte write watermark. Oracle at every settle point: responses on the wire (type, packet id) are a \
                prefix of the arrival order, exactly as long as the longest prefix of completed requests; at the end the full order; protocol handlers never overlap. \
                Non-trivial = at least one request completed while an earlier one was still pending; distinct = the whole case"
